@@ -438,7 +438,7 @@ impl Eth {
                     what = "defer-nested";
                     let by = self.tid;
                     let id = new_clo(by);
-                    let mode = op.a % 4;
+                    let mode = op.a % 6;
                     let class = op.b;
                     unsafe {
                         circ::verif::defer(&self.guards[0], move || {
@@ -446,11 +446,36 @@ impl Eth {
                             // API use from inside a deferred function, i.e. during collection
                             let st0 = circ::verif::local_state();
                             let mut g = cs();
+                            let pinned_at = circ::verif::local_state().map(|s| s.0);
                             match mode {
                                 0 => {}
                                 1 => g.flush(),
                                 2 => defer_sized(&g, by, class),
-                                _ => g.reactivate(),
+                                3 => g.reactivate(),
+                                _ => {
+                                    // a long critical section inside a destructor: many deferrals
+                                    // (bag boundaries) under one guard
+                                    let k = if mode == 4 { 70 } else { 200 };
+                                    for j in 0..k {
+                                        defer_sized(&g, by, class.wrapping_add(j as u8));
+                                    }
+                                }
+                            }
+                            // the guard `g` is still live: the thread must still be inside the very
+                            // critical section it entered with it (same announced epoch), unless it
+                            // explicitly reactivated
+                            let now = circ::verif::local_state().map(|s| s.0);
+                            if mode != 3 && now != pinned_at {
+                                let me = sched::tid();
+                                let d = with(|e| {
+                                    format!(
+                                        "a guard created inside a deferred function (during collection, by {}) was live, yet the participant's announced epoch moved from {:?} to {:?} (raw: epoch<<1|pinned) while the thread performed {} deferrals under it; global epoch {}; trace: {}",
+                                        if me == sched::NOT_WORKER { "main".to_string() } else { format!("t{}", me) },
+                                        pinned_at, now, if mode == 4 { 70 } else if mode == 5 { 200 } else { 1 },
+                                        circ::verif::global_epoch(), tail(e)
+                                    )
+                                });
+                                violation("C16", "O-pinned", "O-pinned/epoch-moved-under-live-guard-in-collection", &d);
                             }
                             drop(g);
                             let st1 = circ::verif::local_state();
